@@ -99,6 +99,17 @@ theorem C08_same_string (O : CanonOracle) (m : Mol) (hm : m.Ok) (coords : List (
     (v3000_text_reads_mol m hm coords text3 lines3 atoms3 bonds3 t3 f3 v3 s3)
     (v2000_text_reads_mol m hm text2 lines2 atoms2 bonds2 bl t2 f2 v2 s2) g3 g2 str3 str2 hg3 hg2 hs3 hs2
 
+/-- **A value of 0 means "no value"** — what `nonZero` in `C08_property_block` is: an entry `0` in an `M  CHG` /
+`M  RAD` / `M  ISO` line states nothing, every other value is kept -/
+theorem C08_zero_means_no_value :
+    nonZero (some 0) = none ∧ nonZero none = none ∧ ∀ v : Int, v ≠ 0 → nonZero (some v) = some v := by
+  refine ⟨rfl, rfl, ?_⟩
+  intro v hv
+  unfold nonZero
+  split
+  · next h => exact absurd (Option.some.inj h) hv
+  · rfl
+
 /-- the charge codes of the atom block, as the CTfile specification defines them (regenerated table) -/
 theorem C08_charge_codes : chargeCode 0 = (none, none) ∧ chargeCode 1 = (some 3, none) ∧ chargeCode 2 = (some 2, none) ∧
     chargeCode 3 = (some 1, none) ∧ chargeCode 4 = (none, some 2) ∧ chargeCode 5 = (some (-1), none) ∧
